@@ -27,7 +27,7 @@ CHECKS = {
          "Every fifth behaviour is written with tables smaller than one statement may need (refusal allowed, silent corruption not). The composition PyWriter o JellyReader is closed exhaustively on the TRIPLES/QUADS/GRAPHS slices.",
          "TLC simulation + model checking of PyWriter, replay through the rdflib entry points, TLC trace judging with set semantics"),
  "C03": ("model_checking", "6 C03",
-         "The independent decoder IS the Tier-1 TLA+ reader: every stream the real serializer writes (model-generated inputs, all generic entry points) is decoded by /verif's own codec and validated row by row by TLC, including denotation = input; so is every stream the repository's OWN test suite makes pyjelly write (recorded from outside by a pytest plugin on a scratch copy of the working tree).",
+         "The independent decoder IS the Tier-1 TLA+ reader: every stream the real serializer writes (model-generated inputs, all generic entry points) is decoded by /verif's own codec and validated row by row by TLC, including denotation = input; so is every stream the repository's OWN test suite makes pyjelly write (recorded from outside by a pytest plugin on a scratch copy of the working tree). RDF 1.1 behaviours alternate between the generic and the rdflib term encoder; the empty input goes through every entry point of both integrations.",
          "TLC trace validation of real serializer output against spec/JellyReader.tla; TLC model checking of PyWriter => reader never errs"),
  "C04": ("model_checking", "6 C04",
          "Reader state graph: TLC closes JellyProducer in tiny universes and prints every transition (reader state, legal row, reader state', item); the harness walks the graph on a real Decoder under the generic AND the rdflib adapters, one test per transition (item and projected state equal). "
@@ -36,12 +36,12 @@ CHECKS = {
          "TLC simulation of spec/JellyProducer.tla (Tier-1 producer) replayed as bytes into the real parsers; denotation computed by TLC"),
  "C15": ("model_checking", "6 C15",
          "TLC-generated RDF 1.1 streams (reference encoder with arbitrary legal choices; PyWriter behaviours through the real serializers) go through all six parse entry points: flat = concat(grouped) = to_graph within an integration and rdflib = generic term for term, "
-         "with the TLC-computed denotation as arbiter; corresponding generic/rdflib statement iterators with equal options must serialize to identical bytes.",
+         "with the TLC-computed denotation as arbiter (language tags and datatypes are compared exactly between the integrations); corresponding generic/rdflib statement iterators with equal options must serialize to identical bytes (default-graph identifiers equal to, not identical with, rdflib's constant).",
          "differential replay of TLC-generated behaviours (JellyProducer, PyWriter) through both integrations, arbitrated by the TLA+ denotation"),
  "C16": ("fault_enumeration", "6 C16",
          "Reader state graph: for every reachable reader state of tiny universes TLC prints every catalogued illegal next row (confirmed invalid by the TLA+ reader); each is applied to a real Decoder (generic and rdflib adapters) brought into that state and must raise. "
          "One catalogued violation (12 classes) is injected by the producer model after FaultAt rows of an arbitrary legal stream; only rows the Tier-1 reader rejects at that very row qualify. Both integrations' flat parsers are drained item by item: "
-         "an exception must be raised and everything yielded before must be the denotation of the earlier rows.",
+         "an exception must be raised and everything yielded before must be the denotation of the earlier rows. Streams without any options row (zero bytes, only empty frames) must be rejected by all six entry points.",
          "TLC simulation of JellyProducer.Violate (fault injection confirmed invalid by the TLA+ reader) replayed into the real parsers"),
  "C05": ("model_checking", "6 C05",
          "TLAPS proves Mirrored/Bounded/Resolves of the table pair for EVERY size, key set, rule and eviction choice (spec/proofs/LookupAbs.tla, re-checked on every run with a wrong variant that must fail), and TLC checks that the concrete-key model implements that abstraction. Finite-state proof per size and rule on the index-canonical quotient model (closed under every next key, hence all histories; the concrete-key model PyLookupKeys is checked by TLC to REFINE the quotient), transferred to the code by walking the same state graph on real LookupEncoder/LookupDecoder objects: "
@@ -54,7 +54,7 @@ CHECKS = {
          "TLC exhaustive model checking of spec/PyConfig.tla + replay of every lattice point into the real serializers + TLC trace judging"),
  "C07": ("model_checking", "6 C07",
          "spec/Framing.tla enumerates every partition of an N-row sequence into frames (N = 5..8 quick, ..11 thorough; with empty frames); every partition of every TLC-generated row sequence is re-framed by /verif's codec, every second frame carrying metadata, "
-         "and parsed flat and grouped by both integrations against the TLC-computed denotation (one sink per frame, content per frame, metadata visible). Grouped serialization of sink sequences through one shared stream: one frame per non-empty sink, judged by TLC.",
+         "and parsed flat and grouped by both integrations against the TLC-computed denotation (one sink per frame, content per frame, metadata visible); the row sequences come from all nine reference-encoder configurations (TRIPLES, QUADS, GRAPHS x three table configurations) and from pyjelly's own writer. Grouped serialization of sink sequences through one shared stream: one frame per non-empty sink, judged by TLC.",
          "TLC exhaustive enumeration of frame partitions (spec/Framing.tla) replayed into the real parsers; TLC trace judging of grouped serializer output"),
  "C08": ("model_checking", "6 C08",
          "spec/PyHint.tla (byte layout of PyFraming): TLC checks exhaustively that for every (mode, first-frame length 0..300 and the varint boundaries, first-row length) the code's truth table answers the mode the stream was written in; "
@@ -62,7 +62,7 @@ CHECKS = {
          "TLC exhaustive model checking of spec/PyHint.tla + replay of every header into delimited_jelly_hint + real both-mode streams"),
  "C09": ("model_checking", "6 C09",
          "TLC explores every schedule of short reads (1,2,3,5,rest) of spec/PyFraming.tla over concrete small streams (invariants ChunkingIrrelevant, ClassifiedRight); every schedule prefix the model explored is replayed on a non-seekable raw source in front of the real parsers on real streams, "
-         "continued with reads of 1, 7 or unlimited bytes; buffered seekable sources (BytesIO, BufferedReader, gzip) are compared with the all-at-once parse.",
+         "continued with reads of 1, 7 or unlimited bytes (including streams whose first frame is exactly 10..13 bytes long); buffered seekable sources (BytesIO, BufferedReader, gzip) are compared with the all-at-once parse.",
          "TLC model checking of spec/PyFraming.tla over all read schedules + replay of the schedules into the real parsers"),
  "C10": ("fault_enumeration", "6 C10",
          "Every byte offset of every real delimited stream is a cut; the streaming parser is drained item by item and each record (frame extents, items per frame, cut, yielded, outcome) is judged by TLC (spec/TraceFraming.tla: prefix, completeness, nothing from an undelivered frame); "
@@ -70,7 +70,7 @@ CHECKS = {
          "byte-level exhaustive truncation per stream, TLC trace judging (TraceFraming) + TLC model checking of PyFraming cuts"),
  "C11": ("model_checking", "6 C11",
          "spec/PyPipeline.tla models the generator pipelines one action per generator step; TLC checks the action properties BoundedBuffering, FrameBeforeInput, NoFurtherThanCompleting and termination on the write side and Live / NoReadAhead on the read side for every stall point, "
-         "and refutes a read-ahead serializer and a look-ahead parser (non-vacuity). Real pipelines (flat_stream_to_frames, stream_frames over TRIPLES/QUADS statement iterators, both integrations) are instrumented from outside and every event log is validated by TLC as a behaviour of the model "
+         "and refutes a read-ahead serializer and a look-ahead parser (non-vacuity). Real pipelines (flat_stream_to_frames, stream_frames over TRIPLES/QUADS statement iterators, both integrations, frame size through options.frame_size or through an explicit FrameFlow object) are instrumented from outside and every event log is validated by TLC as a behaviour of the model "
          "with the Tier-1 clauses evaluated on logged values (spec/TracePipeline.tla); on the read side a source that stalls forever after frame j must see every item of frames 1..j yielded.",
          "TLC model checking of spec/PyPipeline.tla (action properties, liveness) + TLC trace validation of recorded pipeline event logs"),
  "C12": ("model_checking", "6 C12",
@@ -84,18 +84,18 @@ CHECKS = {
          "TLC exhaustive enumeration of the header lattice (spec/PyHeader.tla) with expected outcomes, replayed into writer and parsers"),
  "C14": ("model_checking", "6 C14",
          "TLC closes PyWriter.Namespace o JellyReader.RdNamespace on slices where declarations evict prefixes (prefix table 1-2); simulated behaviours with declarations are replayed through Stream.namespace_declaration and as bindings on "
-         "GenericStatementSink / rdflib Graph / Dataset through stream_frames and Graph.serialize (TRIPLES, QUADS, GRAPHS); wire judged by TLC; order and content of what the reader receives, on/off equivalence of the statements, absence when off, and regeneration are compared.",
+         "GenericStatementSink / rdflib Graph / Dataset through stream_frames and Graph.serialize (TRIPLES, QUADS, GRAPHS); wire judged by TLC; order and content of what the reader receives, on/off equivalence of the statements (also for plain statement iterators, which have nothing to declare), absence when off, and regeneration are compared.",
          "TLC model checking of the namespace slices + replay of TLC behaviours through both integrations + TLC trace judging"),
  "C17": ("exploration", "6 C17",
          "spec/Hostile.tla gives the alphabet of structure-aware hostile tokens (declared table sizes up to 2^32-1, ids up to 2^32-1, nesting up to 5000, frame lengths short/long/2^31-1/2^63-1/unterminated, options in odd places, garbage) and TLC checks Progress, Bounded allocation and termination of the abstract parser loop over every token sequence up to MaxLen; "
-         "each sequence, longer random walks and byte-level perturbations of real streams are parsed by all six entry points from BytesIO and non-seekable sources in a worker with RLIMIT_AS and a watchdog. The behaviour of the protobuf C extension is observed, not modelled.",
+         "each sequence, longer random walks, byte-level perturbations of real streams and huge declared frame lengths followed by 1.5 MiB of real bytes are parsed by all six entry points from BytesIO, real files, BufferedReader and non-seekable sources in a worker with RLIMIT_AS and a watchdog. The behaviour of the protobuf C extension is observed, not modelled.",
          "TLC exhaustive enumeration of hostile token sequences (spec/Hostile.tla) + watchdogged execution of every parse entry point; random byte perturbation"),
  "C18": ("model_checking", "6 C18",
          "Small undersized universes are closed on real Streams under both term encoders: every reachable state x every call is either refused (stream failed, valid prefix) or judged valid and faithful by TLC (Tier-1 inductive step on the real edge), and equals PyWriter's transition. PyWriter (with the per-row claim/refusal logic of TermEncoder) is simulated with the Fits guard off over universes whose statements need more prefix/datatype/name entries than the table holds; "
          "each behaviour is replayed into a real Stream (generic term encoder, and the rdflib term encoder for the IRI-only universes): the refusal must come exactly where the model refuses, and whatever was written is judged by TLC against the accepted statements.",
          "TLC simulation of PyWriter (CheckFits=FALSE) replayed into real Streams + TLC trace judging"),
  "C19": ("model_checking", "6 C19",
-         "Audit clauses (redundant entry, missed elision, missed zero form, missed regrouping) are part of the Tier-1 reader and are evaluated by TLC on every row of every real stream; the model composition checks the same clauses exhaustively on the slices.",
+         "Audit clauses (redundant entry, missed elision, missed zero form, missed regrouping) are part of the Tier-1 reader and are evaluated by TLC on every row of every real stream (generic and rdflib term encoders); the model composition checks the same clauses exhaustively on the slices.",
          "TLC trace validation with audit counters (spec/JellyReader.tla) + model checking of the Tight:* clauses in PyWriter"),
 }
 
